@@ -16,6 +16,8 @@ package crdt
 
 import (
 	"bytes"
+	"io"
+	"math"
 	"reflect"
 	"sync"
 
@@ -160,6 +162,19 @@ func (s *Volatile) GetBinaryCodec() binary.Codec {
 
 // ------------------------------------------------------------------------------------
 
+// readField reads a length-prefixed field, refusing lengths no payload can carry.
+func readField(d *binary.Decoder) ([]byte, error) {
+	l, err := d.ReadUvarint()
+	if err != nil || l == 0 {
+		return nil, err
+	}
+
+	if l > math.MaxInt32 {
+		return nil, io.ErrUnexpectedEOF
+	}
+	return d.Slice(int(l))
+}
+
 type codecVolatile struct{}
 
 // Encode encodes a value into the encoder.
@@ -185,14 +200,19 @@ func (c *codecVolatile) DecodeTo(d *binary.Decoder, rv reflect.Value) (err error
 	}
 
 	for i := 0; i < int(size); i++ {
-		k, err := d.ReadSlice()
+		k, err := readField(d)
 		if err != nil {
-			return nil
+			return err
 		}
 
-		v, err := d.ReadSlice()
+		v, err := readField(d)
 		if err != nil {
-			return nil
+			return err
+		}
+
+		// A value carries at least the add and remove times
+		if len(v) < 16 {
+			return io.ErrUnexpectedEOF
 		}
 
 		out.data[binary.ToString(&k)] = decodeValue(binary.ToString(&v))
